@@ -45,11 +45,19 @@ def classify(site):
         if "TokensFromShares" in fn: return '.guard "C11_guard_tokensFromShares"'
         if "UpdateNSTBalance" in fn: return '.guard "C11_guard_quo_after_not_zero"'
         if "Median" in fn: return '.guard "C11_guard_median_divisor"'
+    if kind == "coinsub":
+        return '.guard "C17_no_halt (Props/C17.lean: AllocateTokens, with truncated validator / staker fractions, never takes more than is left)"'
+    if kind == "newcoin":
+        if "delegation/keeper/abci.go" in f: return '.guard "C11_guard_undelegation_actual_nonneg"'
+        if "exomint" in f: return '.inputChecked "exomint Params validation rejects a negative EpochReward; SetParams keeps the previous value for nil / negative"'
     if kind == "intdiv":
         if "PrepareRoundEndBlock" in fn:
             return '.inputChecked "TokenFeeder.Interval >= 1 is enforced by Params.Validate (x/oracle/types/params.go) before params are stored"'
     if kind == "errfall":
-        if f.startswith("x/avs/"): return '.finding "F-11b"'
+        if f.startswith("x/avs/"):
+            if expr.startswith("err != nil ||"):
+                return '.assumed "GetOperatorOptedUSDValue / GetAVSUSDValue cannot fail here: the result is only selected while its AVS (with a USD-value record, required by CreateAVSTask) still owns the task address; on failure the zero LegacyDec would be dereferenced"'
+            return '.noResultUsed'
         if "dogfood/keeper/abci.go" in f: return '.noResultUsed'
         if "SetJailedState" in fn: return '.noResultUsed'
         if "AppendPriceTR" in fn: return '.noResultUsed'
@@ -171,7 +179,7 @@ theorem C11_review_counts :
     (reviewTable.filter (·.2.isOpen)).length = %d := by
   refine ⟨by rfl, by rfl, by rfl, by rfl⟩
 
-/-- the sites of the open findings (F-11a gov tally, F-11b AVS epoch hook) are on block paths -/
+/-- the sites of the open finding F-11a (gov tally) are on block paths -/
 theorem C11_finding_sites_are_on_block_paths : ∀ s ∈ knownFindingSites, s ∈ panicSitesInBlockPaths := by
   rw [C11_panic_sites_eq_reviewed]
   intro s h
@@ -193,6 +201,23 @@ theorem C11_tie_tokensFromShares_divisor (s t : ExoVerif.Dec) (a : Int)
   constructor
   · simp [ExoVerif.Gen.tokensFromShares, h1, h2]
   · simpa [ExoVerif.Dec.isZero] using h2
+
+/-- x/delegation EndBlock builds `sdk.NewCoin(hua, record.ActualCompletedAmount)` for a matured native-token
+undelegation; NewCoin panics on a negative amount. The only code that lowers ActualCompletedAmount is the
+regenerated SlashFromUndelegation, and it never takes it below zero (it caps against the amount that is
+left, not against the original Amount). -/
+theorem C11_guard_undelegation_actual_nonneg (r : ExoVerif.Ledger.URec) (p : ExoVerif.Dec) (h : 0 ≤ r.actual) :
+    0 ≤ (ExoVerif.Gen.slashFromUndelegation r p).1.actual := by
+  unfold ExoVerif.Gen.slashFromUndelegation
+  by_cases h0 : r.actual = 0
+  · simp [h0]
+  · simp only [beq_iff_eq, h0, if_false]
+    split
+    · simp
+    · rename_i hlt
+      simp only [decide_eq_true_eq, Int.not_le] at hlt
+      simp only []
+      omega
 
 /-- x/appchain (coordinator, subscriber) is not wired into the application -/
 theorem C11_appchain_not_wired : appWiredCustomModules.all (fun m => m != "x/appchain/coordinator" && m != "x/appchain/subscriber") = true := by
